@@ -93,12 +93,17 @@ pub fn scenarios(tier: &str) -> Vec<Scenario> {
         m_mine(1),
         m_mine(W - 1),
         m_commit(0),
-        m_reorg(1, RTarget::Back(1)), m_reorg(1, RTarget::Back(W - 1)), m_reorg(1, RTarget::Back(W)), m_reorg(1, RTarget::Back(W + 1)),
+        m_reorg(1, RTarget::Back(1)), m_reorg(1, RTarget::Back(W - 1)), m_reorg(1, RTarget::Back(W)), m_reorg(1, RTarget::Back(W + 1)), m_reorg(1, RTarget::Fwd(0)),
     ];
+    // a transaction parked in block 2 and nine empty blocks: the next block is the one whose finalisation
+    // expires it
+    let mut about_to_expire = start_with_s();
+    about_to_expire.extend(pool_alpha[0].steps.clone());
+    about_to_expire.push(Step::Mine(P_BLOCKS - 1));
     v.push(Scenario {
         name: "pool-window".into(),
         opts: Opts::new("C01", "pool-window"),
-        starts: vec![("S deployed in block 1".to_string(), start_with_s())],
+        starts: vec![("S deployed in block 1".to_string(), start_with_s()), ("nonce 1 parked in block 2, expiring with the next block".to_string(), about_to_expire)],
         alphabet: pool_alpha,
         bounds: Bounds { depth: if thorough { 6 } else { 4 }, dev: vec![1, 2], dev_total: 2 },
         weight: if thorough { 4.0 } else { 2.0 },
